@@ -23,6 +23,13 @@ def items(tier):
         if c.prim in ("tensordot", "einsum", "inner", "kron") and ("[" in c.label or "'" in c.label) and c.key not in seen:
             seen.add(c.key)
             out.append(("adjoint", c))
+    # ... and for two-operand ufuncs whose operands have DIFFERENT shapes (each rule un-broadcasts against its own operand)
+    for c in grid.real_grid("quick", families=("binary",)):
+        if c.prim in ("arctan2", "hypot", "power", "maximum", "minimum", "logaddexp", "divide", "subtract", "mod", "multiply", "add") and len(c.args) == 2 and c.key not in seen:
+            sh = [getattr(a, "shape", None) for a in c.args]
+            if sh[0] != sh[1] and None not in sh:
+                seen.add(c.key)
+                out.append(("adjoint", c))
     return out
 
 
